@@ -191,6 +191,9 @@ def c04_4(ctx, r):
     first = ic.node.body[0] if not isinstance(ic.node.body[0], ast.Expr) else ic.node.body[1]
     r.check(isinstance(first, ast.If) and ctx.src(first.test) == "self._is_complete" and ctx.src(first.body[0]) in ("return True", "return self._is_complete"), "is_complete() short-circuits on _is_complete (never polls a pipe that was not started)", key_of(ic, "short circuit"), ic.loc(),
             "is_complete() does not return True first when _is_complete is set: a canceled entry is polled although it has no process")
+    from .c08 import node_rows_go_to_node_file
+
+    node_rows_go_to_node_file(ctx, r, "C04.4")
     rc = ctx.fn("AsyncCliCommand.return_code", "C04.4")
     from ..lib import _single_return
 
@@ -277,3 +280,10 @@ def c04_6(ctx, r):
         r.check(bad_path is None and npaths > 0, f"{fn.short}: with the flag unset every path of an iteration reaches the blocker removal", key_of(fn, "unflagged job not unblocked on a path"), fn.loc(c0),
                 f"with cancel_on_blocking_job_failure unset and blockers remaining, the iteration can end without removing finished blockers (path: {desc}): an unflagged job whose blocker failed stays blocked for ever",
                 "A job without the flag is started once its blockers have outcomes, whatever those outcomes are", paths=npaths)
+
+
+@rule(P, "C04.7", "T8", "every collected result reaches the submitter's failure scan (rows of all node files, accumulated over all passes)", min_obligations=5)
+def c04_7(ctx, r):
+    from .c08 import c08_5
+
+    c08_5(ctx, r)
